@@ -155,29 +155,50 @@ def run(facts, res):
     if ga is None:
         res.floor("I3", "get_anchors", 0, 1)
     else:
+        members = [ga] + facts.closures_of(ga.path)
+        # form 1: `.filter(|(_, d)| d.status == Applied)` closures; form 2: `if d.status == Applied { .. }` around the effect
         filt = []
         for cb in facts.closures_of(ga.path):
             for bi, t in cb.calls():
-                if t.callee is not None and t.callee.name in ("eq", "ne") and c02.STATUS in (t.callee.self_ty or t.callee.full):
+                if t.callee is not None and t.callee.name in ("eq", "ne") and c02.STATUS in (t.callee.self_ty or t.callee.full) and cb.local_ty(0) == "bool":
                     v = status_variant(arg_term(cb, t, 1, 8)) or status_variant(arg_term(cb, t, 0, 8))
                     filt.append((cb.path, t.callee.name, v[1] if v else "?"))
-        res.instance("I3", "get_anchors status filters: %s" % filt, ga.loc())
-        if len(filt) < 2 or any(f[1] != "eq" or f[2] != "Applied" for f in filt):
-            res.violation("I3", "get_anchors|filters", "get_anchors must filter candidates and parent removal on status == Applied (found %s)" % filt, ga.loc())
-        rem = []
-        for cb in facts.closures_of(ga.path):
+        closure_form = len(filt) >= 2 and all(f[1] == "eq" and f[2] == "Applied" for f in filt)
+        ins_sites, rem_sites = [], []
+        for cb in members:
             for bi, t in cb.calls():
-                if t.callee is not None and t.callee.name == "remove" and "BTreeSet" in t.callee.path:
-                    a = arg_term(cb, t, 1, 30)
-                    rem.append(any(x[0] == "field" and x[2] == "parents" for x in walk(a)))
+                if t.callee is None or "BTreeSet" not in t.callee.path:
+                    continue
+                if t.callee.name == "insert":
+                    ins_sites.append((cb, bi, t))
+                if t.callee.name == "remove":
+                    rem_sites.append((cb, bi, t))
+        guard_form_ins = bool(ins_sites) and all(c02.status_guard(cb, bi, facts) == "Applied" for cb, bi, t in ins_sites)
+        guard_form_rem = bool(rem_sites) and all(c02.status_guard(cb, bi, facts) == "Applied" for cb, bi, t in rem_sites)
+        bad_filters = [f for f in filt if not (f[1] == "eq" and f[2] == "Applied")]
+        cand_ok = (closure_form or guard_form_ins) and not bad_filters
+        rem_guard_ok = (closure_form or guard_form_rem) and not bad_filters
+        res.instance("I3", "get_anchors: candidates restricted to status == Applied (%s); parent removal restricted to status == Applied (%s) [filters %s]" % (
+            cand_ok, rem_guard_ok, filt), ga.loc())
+        if not (cand_ok and rem_guard_ok):
+            res.violation("I3", "get_anchors|filters", "get_anchors must restrict both the candidate heads and the parent removal to blocks with status == Applied (found filters %s, "
+                          "guarded inserts %s, guarded removals %s)" % (filt, guard_form_ins, guard_form_rem), ga.loc())
+        rem = []
+        for cb, bi, t in rem_sites:
+            a = arg_term(cb, t, 1, 30)
+            rem.append(any(x[0] == "field" and x[2] == "parents" for x in walk(a)))
         res.instance("I3", "get_anchors removes the parents of applied blocks: %s" % rem, ga.loc())
         if rem != [True]:
             res.violation("I3", "get_anchors|parent-removal", "get_anchors must remove exactly the elements of each applied block's `parents` from the candidate set", ga.loc())
-        # candidates: all keys (no take/skip) collected into the result
+        # candidates: all keys of the block map (no take/skip): collected or inserted in a whole-map loop
         rt = du_of(ga).local_term(0, 30)
         names = [callee_name(x) for x in walk(rt) if x[0] == "call"]
-        whole = "collect" in names and not (set(names) & {"take", "skip", "step_by", "take_while", "skip_while", "rev"})
-        res.instance("I3", "get_anchors candidates = keys of all applied blocks (chain: %s)" % [n for n in names if n in ("collect", "map", "filter", "iter")], ga.loc())
+        whole = ("collect" in names and not (set(names) & {"take", "skip", "step_by", "take_while", "skip_while", "rev"}))
+        if not whole and ins_sites:
+            from ..common import whole_iteration
+            whole = all(whole_iteration(cb, arg_term(cb, t, 1, 30)) and any(x[0] == "field" and x[2] == "deltas" for x in walk(arg_term(cb, t, 1, 30)))
+                        for cb, bi, t in ins_sites)
+        res.instance("I3", "get_anchors candidates = keys of all applied blocks of the whole block map: %s" % whole, ga.loc())
         if not whole:
             res.violation("I3", "get_anchors|candidates", "get_anchors does not start from the complete set of applied blocks", ga.loc())
 
